@@ -221,3 +221,39 @@ func factsLRUCallbacks() {
 	sort.Strings(sites)
 	defStrList("lruOnEvictedSites", sites)
 }
+
+// factsStoreConstructors: every store constructor returns the interface type Store (a constructor returning a
+// concrete pointer type would turn a failed open into a non-nil interface holding a nil pointer, which
+// NewDispatcher's `store != nil` test lets through)
+func factsStoreConstructors() {
+	section("store/*.go constructors")
+	var res []string
+	for _, rel := range []string{"store/badger.go", "store/mongo.go", "store/redis.go", "store/store.go"} {
+		f := parse(rel)
+		if f == nil {
+			continue
+		}
+		for _, d := range f.Decls {
+			fd, ok := d.(*ast.FuncDecl)
+			if !ok || fd.Recv != nil || fd.Type.Results == nil {
+				continue
+			}
+			n := fd.Name.Name
+			if !(strings.HasPrefix(n, "new") || strings.HasPrefix(n, "New")) || !strings.HasSuffix(n, "Store") {
+				continue
+			}
+			first := ""
+			if len(fd.Type.Results.List) > 0 {
+				first = nsrc(fd.Type.Results.List[0].Type)
+			}
+			res = append(res, n+":"+first)
+		}
+	}
+	sort.Strings(res)
+	defStrList("storeConstructors", res)
+	var types []string
+	for _, r := range res {
+		types = append(types, r[strings.Index(r, ":")+1:])
+	}
+	defStrList("storeConstructorResults", types)
+}
